@@ -290,3 +290,11 @@ func setTxHash(tx core.Transaction, h *felt.Felt) {
 		t.TransactionHash = h
 	}
 }
+
+// askBlock07: the model's pre-0.7 block hash (selected by the network's First07Block, which the model's
+// version-only dispatch does not know)
+func askBlock07(or *hx.Oracle, b *core.Block, d *core.StateDiff, net *networks.Network) felt.Felt {
+	line := blockLine(b, d)
+	rep := or.AskUntil("block07 "+net.L2ChainIDFelt().Text(16)+strings.TrimPrefix(line, "block"), "end")
+	return evalLine(rep[0], "bh07")
+}
